@@ -32,6 +32,11 @@ type CaseC15 struct {
 	ViaMaxHist bool      `json:"via_max_history"`
 	RefCount   int       `json:"ref_count,omitempty"`
 	More       []int     `json:"more,omitempty"` // further limits, each loaded by a fresh instance on the same disk afterwards
+	// LiveFirst: before any restart, the instance that wrote and merged the entries (it holds the whole log in
+	// memory, never cut by an earlier load) calls Load(limit) itself; the same rule applies. Loads with a
+	// larger limit after a smaller one on the same open instance are not generated (the in-memory log, once
+	// cut, is not extended again by the pinned tree; DESIGN section 7)
+	LiveFirst bool `json:"live_first,omitempty"`
 }
 
 func genC15(rt *rapid.T) CaseC15 {
@@ -55,6 +60,7 @@ func genC15(rt *rapid.T) CaseC15 {
 	if rapid.Bool().Draw(rt, "again") {
 		c.More = rapid.SliceOfN(rapid.OneOf(rapid.IntRange(-1, 0), rapid.IntRange(1, 12), rapid.IntRange(13, 60)), 1, 2).Draw(rt, "more")
 	}
+	c.LiveFirst = rapid.IntRange(0, 3).Draw(rt, "liveFirst") == 0
 	return c
 }
 
@@ -147,6 +153,39 @@ func execC15(c CaseC15) *Outcome {
 	for _, h := range full {
 		if tr.author[h] != 0 {
 			singleWriter = false
+		}
+	}
+
+	if c.LiveFirst && total > 0 {
+		s := cl.Stores[0]
+		if err := s.Load(ctx, c.Limit); err != nil {
+			return fail("Load(%d) on the open instance holding the log of %d entries failed: %v", c.Limit, total, err)
+		}
+		minus1 := -1
+		got, err := listHashes(s.(iface.EventLogStore), &iface.StreamOptions{Amount: &minus1})
+		if err != nil {
+			return fail("List after Load failed: %v", err)
+		}
+		want := total
+		if c.Limit > 0 && c.Limit < total {
+			want = c.Limit
+		}
+		desc := fmt.Sprintf("Load(%d) on the open instance that holds the whole log of %d entries", c.Limit, total)
+		if len(got) != want {
+			return fail("%s lists %d entries, expected %d", desc, len(got), want)
+		}
+		if !isSubsequence(got, full) {
+			return fail("%s lists entries out of log order: %v vs full %v", desc, shortAll(got), shortAll(full))
+		}
+		if want > 0 && got[len(got)-1] != full[total-1] {
+			return fail("%s does not include the newest entry", desc)
+		}
+		if (singleWriter || c.Limit <= 0) && !eqStrings(got, full[total-want:]) {
+			return fail("%s does not list exactly the %d most recent entries", desc, want)
+		}
+		o.Labels = append(o.Labels, "load-on-the-open-instance")
+		if want < total {
+			o.Labels = append(o.Labels, "load-on-the-open-instance-cuts")
 		}
 	}
 
